@@ -34,8 +34,12 @@ func split(run *ev.Run, caseID string, w *mon.SessWorld, probs []string) {
 }
 
 // finalAccount checks, per stream, the multiset of results received over the whole history.
-func finalAccount(run *ev.Run, w *mon.SessWorld) []string {
+func finalAccount(run *ev.Run, w *mon.SessWorld, sentTimes ...map[uint64]int) []string {
 	var probs []string
+	times := map[uint64]int{}
+	if len(sentTimes) > 0 {
+		times = sentTimes[0]
+	}
 	// the Get RPC must report exactly the fold of what was acknowledged (C01 at the server level)
 	if resps, err, wd := drv.Get(w.Srv, &spb.GetRequest{NetworkInstance: &spb.GetRequest_All{All: &spb.Empty{}}, Aft: spb.AFTType_ALL}, 0); wd == nil {
 		if err != nil {
@@ -59,6 +63,14 @@ func finalAccount(run *ev.Run, w *mon.SessWorld) []string {
 				n[st]++
 			}
 			run.Count("operation_ids_accounted", 1)
+			if k := times[id]; k > 1 {
+				// an id the session used k times (re-used after its operation had been answered):
+				// one verdict per use, at most
+				if n[spb.AFTResult_FAILED]+n[spb.AFTResult_RIB_PROGRAMMED] > k || n[spb.AFTResult_FIB_PROGRAMMED] > k {
+					probs = append(probs, fmt.Sprintf("more-verdicts-than-operations|%s: id %d was used for %d operations and received %v", s.Name, id, k, sts))
+				}
+				continue
+			}
 			switch {
 			case n[spb.AFTResult_FAILED] > 1:
 				probs = append(probs, fmt.Sprintf("failed-more-than-once|%s: operation %d received %v over the history", s.Name, id, sts))
@@ -109,6 +121,8 @@ func TestCheck(t *testing.T) {
 		elec := &spb.Uint128{High: uint64(r.Intn(2)), Low: 2 + uint64(r.Intn(100))}
 		probs = append(probs, w.SendElection(s, elec)...)
 		total := 30 + r.Intn(200)
+		var doneIDs []uint64
+		sentTimes := map[uint64]int{}
 		for sent := 0; sent < total && len(probs) == 0 && s.Open; {
 			switch r.Intn(12) {
 			case 0:
@@ -164,6 +178,30 @@ func TestCheck(t *testing.T) {
 				n = 50 + r.Intn(150)
 			}
 			specs := g.History(n)
+			// operation ids are the client's to choose: an id whose operation has been answered
+			// (FAILED or programmed) may be used again, e.g. for the corrected retry - the new
+			// operation is a new operation and is answered like any other
+			inBatch := map[uint64]bool{}
+			for k := range specs {
+				inBatch[specs[k].Op.GetId()] = true
+			}
+			for k := range specs {
+				if len(doneIDs) > 0 && r.Intn(8) == 0 {
+					j := r.Intn(len(doneIDs))
+					id := doneIDs[j]
+					doneIDs = append(doneIDs[:j], doneIDs[j+1:]...)
+					if _, held := w.X.M.Held[id]; held || inBatch[id] {
+						continue
+					}
+					delete(inBatch, specs[k].Op.GetId())
+					specs[k].Op.Id = id
+					inBatch[id] = true
+					run.Count("operation_ids_reused_after_their_operation_was_answered", 1)
+				}
+			}
+			for k := range specs {
+				sentTimes[specs[k].Op.GetId()]++
+			}
 			for k := range specs {
 				switch r.Intn(40) {
 				case 0:
@@ -174,13 +212,19 @@ func TestCheck(t *testing.T) {
 			}
 			probs = append(probs, w.SendOps(s, specs, elec)...)
 			probs = append(probs, w.CompareState()...)
+			for k := range specs {
+				id := specs[k].Op.GetId()
+				if _, held := w.X.M.Held[id]; !held && len(s.Terminal[id]) > 0 {
+					doneIDs = append(doneIDs, id)
+				}
+			}
 			sent += n
 			run.Count("operations", int64(n))
 			run.Seen("batch_sizes", fmt.Sprint((n+9)/10*10))
 		}
 		run.Count("held_ops_released", int64(w.LastCascade))
 		if len(probs) == 0 {
-			probs = finalAccount(run, w)
+			probs = finalAccount(run, w, sentTimes)
 		}
 		split(run, caseID, w, probs)
 		run.Eval(1)
@@ -289,5 +333,5 @@ func TestCheck(t *testing.T) {
 		}
 	})
 	run.Assume("a held operation whose session lost the primary role or ended may stay unanswered and without effect, or be answered later on its own still-open stream; anything else (a result on another stream, an effect without an answer) is a violation")
-	run.Finish("(a) single-session histories of 30-230 operations from the C01 generator through the server (RIB- and FIB-acknowledging sessions, batches of 1-200 operations per request, empty and unknown network-instance names, forward references allowed / disallowed; between batches Flush RPCs (all / one instance, override / the primary's id) and standby sessions that negotiate, perhaps announce a lower id, and leave - held operations must survive both and be answered when their reference arrives); (b) hand-over scripts: A leaves operations held (group behind a missing next-hop, entries behind the group), B announces an equal or higher id while A is connected / already gone / leaves afterwards / re-announces, B installs the missing dependency using operation ids that collide with A's. Every response is attributed to its operation (one ModifyResponse per operation, barrier-delimited) and judged by the RIB model; per stream the multiset of results over the whole history is accounted at the end. Distinct = by script", 200, false)
+	run.Finish("(a) single-session histories of 30-230 operations from the C01 generator through the server (RIB- and FIB-acknowledging sessions, batches of 1-200 operations per request, empty and unknown network-instance names, forward references allowed / disallowed; between batches Flush RPCs (all / one instance, override / the primary's id) and standby sessions that negotiate, perhaps announce a lower id, and leave - held operations must survive both and be answered when their reference arrives; ids of answered operations are used again for later operations); (b) hand-over scripts: A leaves operations held (group behind a missing next-hop, entries behind the group), B announces an equal or higher id while A is connected / already gone / leaves afterwards / re-announces, B installs the missing dependency using operation ids that collide with A's. Every response is attributed to its operation (one ModifyResponse per operation, barrier-delimited) and judged by the RIB model; per stream the multiset of results over the whole history is accounted at the end. Distinct = by script", 200, false)
 }
